@@ -1,7 +1,7 @@
 (** Single entry point of the extracted model: name of the case kind -> function. *)
 From Coq Require Import List NArith ZArith String.
 From Tongo Require Import Lib.Bits Lib.Sx Harness.H06 Harness.H07 Harness.H01 Harness.H18
-  Harness.H05 Harness.H13 Harness.H19.
+  Harness.H05 Harness.H13 Harness.H19 Harness.H12.
 Import ListNotations.
 Local Open Scope string_scope.
 
@@ -34,4 +34,7 @@ Definition run (name : string) (a : sx) : sx :=
   else if is "c19.stateinit" then H19.run_stateinit a
   else if is "c19.check" then H19.run_check a
   else if is "c19.clock" then H19.run_clock a
+  else if is "c12.script" then H12.run_script a
+  else if is "c12.race" then H12.run_race a
+  else if is "c12.seq" then H12.run_seq a
   else sx_err "unknown case kind".
